@@ -36,7 +36,9 @@ func getSwapOutSenderStates() States {
 			Action: &CreateSwapRequestAction{},
 			Events: Events{
 				Event_ActionSucceeded: State_SwapOutSender_SendRequest,
-				Event_ActionFailed:    State_SwapCanceled,
+				// After a crash the request may already be with the peer
+				// although this state is the last one stored: tell it.
+				Event_ActionFailed: State_SendCancel,
 			},
 			FailOnrecover: true,
 		},
